@@ -10,6 +10,7 @@ Structural clauses decided:
  R5 every pipeline result is forwarded exactly once on the result channel; a worker stops only on shutdown / disconnect /
     closed result channel
  R6 the TCP sharding key is the source address and the uptime state is keyed per direction (C19.R1,R2,R4)
+ R1 (also) C18.R2: every dispatch hash looks at the connection identity only (ports at the TCP header, IP slice handed to the helpers)
 """
 from ..engine import cfg as C
 from ..engine import q as Q
